@@ -62,6 +62,13 @@ import subprocess
 import time
 
 
+REPO = os.environ.get("VERIF_REPO", "/repo")  # (override only for experiments against a scratch copy)
+
+
+def _manifest(name):
+    return open(os.path.join(driver.ROOT, "derive_check", "Cargo.toml.in")).read().replace('name = "derive-check"', 'name = "%s"' % name).replace('path = "/repo"', 'path = "%s"' % REPO)
+
+
 def _cargo(args, cwd, target):
     e = driver.env_offline()
     e["CARGO_TARGET_DIR"] = target
@@ -76,7 +83,8 @@ def derive_engine(prop, tier, seed, out, known):
     os.makedirs(work, exist_ok=True)
     g = subprocess.run(["python3", os.path.join(root, "lib", "gen_derive.py"), work, tier], stdout=subprocess.PIPE, text=True)
     ntypes, nvalues = [int(x) for x in g.stdout.split()]
-    shutil.copy("/repo/Cargo.lock", os.path.join(work, "Cargo.lock"))
+    shutil.copy(os.path.join(REPO, "Cargo.lock"), os.path.join(work, "Cargo.lock"))
+    open(os.path.join(work, "Cargo.toml"), "w").write(_manifest("derive-check"))
     run = {"config": "derive-check crate (rust-cc default features + derive)", "lens": "derive", "lens_args": "gen_derive.py " + tier, "states": ntypes, "transitions": nvalues,
            "executions": nvalues, "fixpoint": True, "cut_reason": None, "samples": [], "vacuity": {}, "scope": {"types": ntypes, "values": nvalues}, "wall_s": 0}
     viol = []
@@ -105,10 +113,10 @@ def derive_engine(prop, tier, seed, out, known):
     # compile probes
     pdir = os.path.join(driver.BUILD, "derive-probes")
     os.makedirs(os.path.join(pdir, "src", "bin"), exist_ok=True)
-    open(os.path.join(pdir, "Cargo.toml"), "w").write(open(os.path.join(root, "derive_check", "Cargo.toml.in")).read().replace('name = "derive-check"', 'name = "derive-probes"'))
+    open(os.path.join(pdir, "Cargo.toml"), "w").write(_manifest("derive-probes"))
     shutil.copy(os.path.join(root, "derive_check", "conflict.rs.in"), os.path.join(pdir, "src", "lib.rs"))
     shutil.copy(os.path.join(root, "derive_check", "nodrop.rs.in"), os.path.join(pdir, "src", "bin", "nodrop.rs"))
-    shutil.copy("/repo/Cargo.lock", os.path.join(pdir, "Cargo.lock"))
+    shutil.copy(os.path.join(REPO, "Cargo.lock"), os.path.join(pdir, "Cargo.lock"))
     ptarget = os.path.join(driver.BUILD, "derive-target-probes")
     c = _cargo(["build", "--lib", "--message-format=json"], pdir, ptarget)
     codes = []
@@ -128,9 +136,9 @@ def derive_engine(prop, tier, seed, out, known):
     # the nodrop probe is a separate package build (the lib above does not compile by design): build it alone
     ndir = os.path.join(driver.BUILD, "derive-nodrop")
     os.makedirs(os.path.join(ndir, "src"), exist_ok=True)
-    open(os.path.join(ndir, "Cargo.toml"), "w").write(open(os.path.join(root, "derive_check", "Cargo.toml.in")).read().replace('name = "derive-check"', 'name = "derive-nodrop"'))
+    open(os.path.join(ndir, "Cargo.toml"), "w").write(_manifest("derive-nodrop"))
     shutil.copy(os.path.join(root, "derive_check", "nodrop.rs.in"), os.path.join(ndir, "src", "main.rs"))
-    shutil.copy("/repo/Cargo.lock", os.path.join(ndir, "Cargo.lock"))
+    shutil.copy(os.path.join(REPO, "Cargo.lock"), os.path.join(ndir, "Cargo.lock"))
     n = _cargo(["build"], ndir, ptarget)
     if n.returncode != 0:
         viol.append(("derive-nodrop", "types with #[rust_cc(unsafe_no_drop)] and a user-written Drop do not compile: " + " | ".join([l for l in n.stderr.splitlines() if l.startswith("error")][:3])))
